@@ -116,3 +116,157 @@ void h_timeout(void)
     V_ASSERT(!G.live || req->holds == in_req.holds, "C02: the timeout releases soft holds only (an unmet +! still blocks)");
     V_CANARY();
 }
+
+/* ============================================== server-event handlers (C01, C03, C06) ====
+ * The module table holds one ghost decision module whose callbacks implement the contract
+ * of a decision module's data hooks: they may move the hold counters and send queries for
+ * a LIVE request, they never retire it (the real hooks of iauth_xquery are proved against
+ * this in the C03.xq_* jobs). */
+static struct iauth_module gmod;
+static void gm_effect(struct iauth_request *r)
+{
+    V_ASSERT(r == G.req && G.live, "C01: a module hook is run for a retired request");
+    r->holds = in_modcb_holds;
+    r->soft_holds = in_modcb_soft;
+}
+static void gm_field_change(struct iauth_request *r, enum iauth_flags flag) { G.cb_field_change++; G.cb_last_flag = (int)flag; gm_effect(r); }
+static void gm_user_info(struct iauth_request *r) { G.cb_user_info++; gm_effect(r); }
+static void gm_password(struct iauth_request *r, const char pw[]) { G.cb_password++; G.cb_password_text = pw; gm_effect(r); }
+static void gm_disconnect(struct iauth_request *r) { G.cb_disconnect++; (void)r; }
+static void gm_registered(struct iauth_request *r, int from_ircd) { G.registered_cb++; (void)r; (void)from_ircd; }
+static void gm_new_client(struct iauth_request *r) { G.cb_new_client++; (void)r; }
+
+static void install_ghost_module(void)
+{
+    static struct set mods;
+    gmod.owner = "ghost";
+    gmod.field_change = gm_field_change; gmod.user_info = gm_user_info; gmod.password = gm_password;
+    gmod.disconnect = gm_disconnect; gmod.registered = gm_registered; gmod.new_client = gm_new_client;
+    gmod.node.l = gmod.node.r = gmod.node.prev = gmod.node.next = NULL;
+    mods.compare = set_compare_charp; mods.cleanup = NULL; mods.root = &gmod.node; mods.count = 1;
+    iauth_modules = &mods;
+    V_IN(in_modcb_holds); V_IN(in_modcb_soft);
+}
+
+static unsigned int flags0;
+static void handler_pre(void)
+{
+    req = mk_request();
+    install_ghost_module();
+    V_IN(in_text); V_IN(in_text2);
+    in_text.s[79] = 0; in_text2.s[79] = 0;
+    flags0 = req->flags.bits[0];
+}
+
+/* what every state-changing handler owes (C03 mechanism: "every state-changing event ends
+ * by re-evaluating the acceptance gate"): on return nothing decidable is left waiting */
+static void handler_post(unsigned int must_set, int expect_cb_flag)
+{
+    V_ASSERT(G.verdicts <= 1 && G.softdones <= 1, "C01: at most one verdict and one soft-done per step");
+    V_ASSERT(G.msgs_after_retire == 0, "C01: silence after the verdict");
+    if (G.live) {
+        V_ASSERT((req->flags.bits[0] & flags0) == flags0, "C01/C02: a data event never forgets earlier events (flags only grow)");
+        V_ASSERT((req->flags.bits[0] & must_set) == must_set, "C02/C06: the event is recorded in the request's flags");
+        V_ASSERT(!spec_gate_open(req), "C03: the verdict comes in the same step - a live client that is ready and awaits nothing is not left waiting");
+        V_ASSERT(!(spec_gate_ready(req) && !SOFT_DONE(req)), "C01/C03: a ready client that still awaits services has been sent soft-done");
+    }
+    if (expect_cb_flag >= 0)
+        V_ASSERT(G.cb_field_change == 1 && G.cb_last_flag == expect_cb_flag, "C06: the decision modules are told about the new data item once");
+}
+
+/* bounded copy: dst holds the first `limit` bytes of src (or all of it), NUL-terminated */
+static int copy_ok(const char *dst, const char *src, unsigned limit)
+{
+    unsigned i;
+    for (i = 0; i < 80; i++) {
+        if (i == limit) return dst[i] == '\0';
+        if (dst[i] != src[i]) return 0;
+        if (src[i] == '\0') return 1;
+    }
+    return 0;
+}
+
+void h_parse_hostname(void)
+{
+    int had;
+    handler_pre();
+    had = req->hostname[0] != '\0';
+    parse_hostname(req, in_text.s);
+    if (!had) {
+        handler_post(1u << IAUTH_GOT_HOSTNAME, IAUTH_GOT_HOSTNAME);
+        if (G.live) V_ASSERT(copy_ok(req->hostname, in_text.s, HOSTLEN), "C06: the host name is kept exactly as reported, within HOSTLEN");
+    } else {
+        V_ASSERT(G.msgs == 0 && G.live, "a second host name report is ignored");
+    }
+    V_CANARY();
+}
+
+void h_parse_no_hostname(void)
+{
+    handler_pre();
+    parse_no_hostname(req);
+    handler_post(1u << IAUTH_GOT_HOSTNAME, IAUTH_GOT_HOSTNAME);
+    V_CANARY();
+}
+
+void h_parse_nick(void)
+{
+    handler_pre();
+    parse_nick(req, in_text.s);
+    handler_post(1u << IAUTH_GOT_NICK, IAUTH_GOT_NICK);
+    if (G.live) V_ASSERT(copy_ok(req->nickname, in_text.s, NICKLEN), "C06: the nick is kept exactly as reported, within NICKLEN");
+    V_CANARY();
+}
+
+int in_have_ident;
+void h_parse_ident(void)
+{
+    int had_cli;
+    handler_pre();
+    V_IN(in_have_ident);
+    had_cli = req->cli_username[0] != '\0';
+    parse_ident(req, in_have_ident ? in_text.s : NULL);
+    handler_post((in_have_ident || had_cli) ? (1u << IAUTH_GOT_IDENT) : (1u << IAUTH_EMPTY_IDENT), IAUTH_GOT_IDENT);
+    if (G.live && in_have_ident) V_ASSERT(copy_ok(req->auth_username, in_text.s, USERLEN), "C06: the ident is kept exactly as reported, within USERLEN");
+    V_CANARY();
+}
+
+void h_parse_user_info(void)
+{
+    char *argv[4];
+    int empty_ident;
+    handler_pre();
+    V_IN(in_argc);
+    V_ASSUME(in_argc >= 1 && in_argc <= 3);
+    argv[0] = "U"; argv[1] = in_argc >= 2 ? in_text.s : NULL; argv[2] = in_argc >= 3 ? in_text2.s : NULL; argv[3] = NULL;
+    empty_ident = BITSET_GET(req->flags, IAUTH_EMPTY_IDENT) != 0;
+    parse_user_info(req, in_argc, argv);
+    if (in_argc >= 3) {
+        handler_post((1u << IAUTH_GOT_USER_INFO) | (empty_ident ? (1u << IAUTH_GOT_IDENT) : 0), -1);
+        V_ASSERT(G.cb_user_info == 1, "C06: the decision modules are told about the user info once");
+        if (G.live) {
+            V_ASSERT(copy_ok(req->cli_username, in_text.s, USERLEN), "C06: the claimed user name is kept as reported, within USERLEN");
+            V_ASSERT(copy_ok(req->realname, in_text2.s, REALLEN), "C06: the real name is kept as reported, within REALLEN");
+        }
+    } else {
+        V_ASSERT(G.live && req->flags.bits[0] == flags0 && G.msgs == 0, "C08: a U line without real name changes nothing for the client");
+    }
+    V_CANARY();
+}
+
+void h_parse_password(void)
+{
+    handler_pre();
+    parse_password(req, in_text.s);
+    handler_post(1u << IAUTH_GOT_PASSWORD, -1);
+    V_ASSERT(G.cb_password == 1 && G.cb_password_text == in_text.s, "C06: the password text is handed to the decision modules as reported");
+    V_CANARY();
+}
+
+void h_parse_hurry_up(void)
+{
+    handler_pre();
+    parse_hurry_up(req);
+    handler_post((1u << IAUTH_GOT_HURRY_UP) | iauth_flags.bits[0], IAUTH_GOT_HURRY_UP);
+    V_CANARY();
+}
